@@ -183,7 +183,25 @@ pub fn build_request(req: &Req) -> Option<http::Request<()>> {
 }
 
 /// One real execution: `serve(entity, &request)`, then drain the body.
+/// Fallback mode (set by ./check after the explorer process was killed by an allocation failure):
+/// entities longer than 16 MiB are skipped. The harness "serves" ranges of up to 2^64-1 bytes as a
+/// few giant *virtual* chunks, which works as long as the subject only asks a chunk for its
+/// length. A subject that copies entity data (legitimate for real, memory-sized chunks) would try
+/// to allocate exabytes, and an allocation failure aborts the process instead of giving a verdict.
+pub fn no_giant_entities() -> bool {
+    static F: std::sync::OnceLock<bool> = std::sync::OnceLock::new();
+    *F.get_or_init(|| std::env::var_os("VERIF_NO_GIANT").is_some())
+}
+
 pub fn run_serve(req: &Req, ent: &EntSpec, extra_polls: usize, horizon: usize) -> Option<ServeObs> {
+    run_serve_with(req, ent, extra_polls, horizon, false)
+}
+
+/// `in_tokio`: the body is drained inside a tokio task instead of by the hand-rolled poll loop.
+pub fn run_serve_with(req: &Req, ent: &EntSpec, extra_polls: usize, horizon: usize, in_tokio: bool) -> Option<ServeObs> {
+    if ent.len > (1 << 24) && no_giant_entities() {
+        return None;
+    }
     let request = build_request(req)?;
     let (e, log) = ScriptEnt::new(ent.clone());
     let t0 = SystemTime::now();
@@ -218,7 +236,7 @@ pub fn run_serve(req: &Req, ent: &EntSpec, extra_polls: usize, horizon: usize) -
         .iter()
         .map(|(k, v)| (k.as_str().to_string(), v.as_bytes().to_vec()))
         .collect();
-    let body = drain(body, extra_polls, horizon);
+    let body = if in_tokio { crate::drive::drain_in_tokio(body, extra_polls, horizon) } else { drain(body, extra_polls, horizon) };
     let l = log.lock().unwrap();
     Some(ServeObs {
         panic: None,
@@ -829,6 +847,9 @@ fn check_shape(req: &Req, ent: &EntSpec, obs: &ServeObs, m: &Model, shape: &Shap
     let owner_bytes: &'static str = if matches!(shape, Shape::Multi(_)) { "C06" } else { "C02" };
     // An implementation may or may not ask for an empty range.
     let empty_ok = calls.len() == 1 && calls[0].0 == calls[0].1 && obs.get_range.is_empty();
+    // ... and if it did not ask, there is no entity stream that could fail or run long: the
+    // statement is about "the stream an entity returns for a requested range".
+    let (fa, fault_call) = if empty_ok { (Fate::Clean, 0) } else { (fa, fault_call) };
     let is_prefix = obs.get_range.len() <= calls.len() && obs.get_range[..] == calls[..obs.get_range.len()];
     let calls_ok = empty_ok
         || (is_prefix
@@ -1031,7 +1052,9 @@ pub fn check_validators(req: &Req, ent: &EntSpec, obs: &ServeObs, out: &mut Vec<
     // entity headers
     let is_multi = obs.status == 206 && obs.hdr("content-range").is_none();
     let want_present = obs.status == 200 || (obs.status == 206 && req.get("if-range").is_none() && !is_multi);
-    let want_absent = matches!(obs.status, 304 | 412 | 416) || (obs.status == 206 && req.get("if-range").is_some());
+    // (a 206 that answers a request WITH If-Range is left open by the statement: it names the
+    // responses that carry the entity's headers and the ones that carry none, and this is neither)
+    let want_absent = matches!(obs.status, 304 | 412 | 416);
     for (k, v) in &ent.headers {
         // optional whitespace around a field value is not part of the value (RFC 7230 s.3.2)
         let trim = |mut x: &[u8]| -> Vec<u8> {
